@@ -150,3 +150,36 @@ func (w *World) epochsBack(n *Node) uint64 {
 	}
 	return uint64(w.Spec.SlotToEpoch(n.Slot) - w.Spec.SlotToEpoch(n.Parent.Slot))
 }
+
+// buildForkChain: a chain across fork-version changes AFTER altair, for a world with altair from epoch 1, bellatrix from
+// epoch 3 and capella from epoch 5 (SLOTS_PER_EPOCH = 8): blocks in the last slot of each fork and in the first slot of
+// the next one, and side branches that leave the first slot of the new fork empty.
+//
+//	phase0  m1 m2 m3 m5 m6 m7 | altair m8 m9 m11 m12 m15 m17 m20 m21 m22 m23 | bellatrix m24 m25 m26 m28 m33 m36 m38 m39 | capella m40 m41 m42
+//	side  : m23 <- s25 <- s26 (slot 24 empty)        side2 : m39 <- t41 <- t42 (slot 40 empty)
+func buildForkChain(w *World) *Scenario {
+	sc := &Scenario{W: w, BySlot: map[common.Slot]*Node{}, Special: map[string]common.ValidatorIndex{}}
+	tip := w.Genesis
+	sc.Main = append(sc.Main, tip)
+	sc.BySlot[0] = tip
+	add := func(prefix string, graffiti byte, from *Node, slots ...common.Slot) []*Node {
+		var out []*Node
+		p := from
+		for _, slot := range slots {
+			n := w.AddBlock(fmt.Sprintf("%s%d", prefix, slot), p, slot, BlockOps{Graffiti: graffiti})
+			if n == nil {
+				panic("fork chain: no slashings here")
+			}
+			out = append(out, n)
+			p = n
+		}
+		return out
+	}
+	for _, n := range add("m", 0, tip, 1, 2, 3, 5, 6, 7, 8, 9, 11, 12, 15, 17, 20, 21, 22, 23, 24, 25, 26, 28, 33, 36, 38, 39, 40, 41, 42) {
+		sc.Main = append(sc.Main, n)
+		sc.BySlot[n.Slot] = n
+	}
+	sc.Side = add("s", 0x51, sc.BySlot[23], 25, 26)
+	sc.Side2 = add("t", 0x71, sc.BySlot[39], 41, 42)
+	return sc
+}
